@@ -58,6 +58,7 @@ __CPROVER_ensures(SET_EQ(__CPROVER_return_value->_value.i, __CPROVER_old(v->_val
 __CPROVER_ensures(v->_flags == 0)
 ;
 
+#ifndef ENFORCING_VALUE_CLONE   /* the job value_clone proves this contract's stronger form on the real body */
 /* Value Value::clone() const noexcept : a deep copy; the copy is a temporary (no LVALUE) and shares no
  * payload with the source (objects excepted, which are reference counted) */
 struct Value _ZNK4bloc5Value5cloneEv(struct Value *this)
@@ -69,6 +70,7 @@ __CPROVER_ensures(SET_EQ(__CPROVER_return_value._value.i, this->_value.i) && SET
                   SET_EQ(__CPROVER_return_value._type._level, V_LEVEL(this)))
 ENS_CLONE_PAYLOADS
 ;
+#endif
 
 /* void Value::swap(Value&& v) noexcept : move v into *this (the old payload is released), v is left null */
 void _ZN4bloc5Value4swapEOS0_(struct Value *this, struct Value *v)
